@@ -39,6 +39,14 @@ SchemaF(fields) ==
      flagkey |-> "", validators |-> <<>>, senv |-> EnvInherit, fname |-> ""]
 \* list item that is a schema / config type:  ListF(SchemaF(...))
 VirtualF == [kind |-> "virtual"]        \* VirtualField / InstanceMethodField: no stored value
+\* kinds of computed fields (vk; a plain VirtualF is "const": its getter returns VirtualValue):
+\*   alias  - VirtualField(getter = cfg.<target>, setter = cfg.<target> := value)
+\*   modeis - the is_<mode>_mode helper an ApplicationModeField adds next to itself
+\*   method - InstanceMethodField: calling it returns the value of <target>; never assignable
+AliasF(target)   == [kind |-> "virtual", vk |-> "alias", target |-> target]
+ModeIsF(of, val) == [kind |-> "virtual", vk |-> "modeis", of |-> of, val |-> val, auto |-> TRUE]
+MethodF(target)  == [kind |-> "virtual", vk |-> "method", target |-> target, imethod |-> TRUE]
+VKind(f) == IF "vk" \in DOMAIN f THEN f.vk ELSE "const"
 
 IsSchema(f)  == f.kind = "schema"
 IsLeaf(f)    == f.kind \notin {"schema", "virtual", "nofield"}
@@ -268,7 +276,11 @@ SetValue(S, c, k, v, path) ==
         Res(TRUE, [c EXCEPT !.vals = Put(@, k, v), !.dflt = @ \ {k}], NoErr, {})
     ELSE
     LET f == FieldOf(S, k) IN
-    IF f.kind = "virtual" THEN Res(FALSE, c, Err("TypeError", here), {})
+    IF f.kind = "virtual" THEN
+        \* validate() passes any value; __setval__ calls the setter or raises TypeError (read-only)
+        (IF VKind(f) = "alias"
+         THEN LET r == SetValue(S, c, f.target, v, path) IN ResL(r.ok, r.cfg, r.err, r.repl, r.log)
+         ELSE Res(FALSE, c, Err("TypeError", here), {}))
     ELSE IF IsLeaf(f) THEN
         LET r == LeafValidate(f, v, here) IN
         IF r.ok THEN ResL(TRUE, [c EXCEPT !.vals = Put(@, k, r.cfg), !.dflt = @ \ {k}], NoErr, {}, r.log)
@@ -346,7 +358,15 @@ Construct(S, kw) ==
             IF pairs = <<>> THEN Res(TRUE, c, NoErr, {})
             ELSE LET r == SetValue(S, c, Head(pairs)[1], Head(pairs)[2], <<>>) IN
                  IF r.ok THEN Apply(r.cfg, Tail(pairs)) ELSE Res(FALSE, NoneV, r.err, {})
-    IN Apply(d.cfg, kw)
+        r == Apply(d.cfg, kw)
+        kwkeys == {kw[i][1] : i \in DOMAIN kw}
+    IN  IF ~r.ok THEN r
+        ELSE \* __init__ applies the keywords first and then gives every field that was not named
+             \* its default - also a field a keyword's setter had just written
+             Res(TRUE,
+                 [r.cfg EXCEPT !.vals = [k \in DOMAIN r.cfg.vals |-> IF k \in kwkeys \/ k \notin DOMAIN d.cfg.vals THEN r.cfg.vals[k] ELSE d.cfg.vals[k]],
+                               !.dflt = DOMAIN d.cfg.vals \ kwkeys],
+                 NoErr, {})
 
 \* support.reset_value(cfg, "a.b.key")
 ResetValue(S, c, p, k) ==
@@ -497,7 +517,13 @@ StrLen(v) == CASE v.t = "str" -> Len(v.s)
 NoMask == [m |-> "none"]
 MaskS(s) == [m |-> "str", s |-> s]
 MaskOf(mask, v) == IF Len(mask.s) = 1 THEN StrV([i \in 1..StrLen(v) |-> mask.s[1]]) ELSE StrV(mask.s)
-VirtualValue == IntV(42)        \* what the harness's virtual field getters return
+VirtualValue == IntV(42)        \* what the harness's plain virtual field getters return
+\* value a computed field shows for configuration c
+VirtualOf(f, c) ==
+    CASE VKind(f) = "alias"  -> c.vals[f.target]
+      [] VKind(f) = "method" -> c.vals[f.target]
+      [] VKind(f) = "modeis" -> BoolV(c.vals[f.of] = StrV(f.val))
+      [] OTHER -> VirtualValue
 
 RECURSIVE ToTree(_, _, _, _)
 ToTree(S, c, virtual, mask) ==
@@ -513,7 +539,7 @@ ToTree(S, c, virtual, mask) ==
             IF f.kind = "virtual" THEN
                 (IF virtual /\ ~("imethod" \in DOMAIN f)
                  THEN << <<StrV(KeyChars[k]),
-                          IF "sensitive" \in DOMAIN f /\ f.sensitive /\ mask.m # "none" THEN MaskOf(mask, VirtualValue) ELSE VirtualValue>> >>
+                          IF "sensitive" \in DOMAIN f /\ f.sensitive /\ mask.m # "none" THEN MaskOf(mask, VirtualOf(f, c)) ELSE VirtualOf(f, c)>> >>
                  ELSE <<>>)
             ELSE IF k \notin DOMAIN c.vals THEN <<>>
             ELSE << <<StrV(KeyChars[k]), render(f, c.vals[k])>> >>
@@ -521,6 +547,22 @@ ToTree(S, c, virtual, mask) ==
         Walk(i) == IF i > Len(S.fields) THEN <<>> ELSE one(i) \o Walk(i + 1)
         dynp == [j \in DOMAIN c.dyn |-> <<StrV(KeyChars[c.dyn[j]]), c.vals[c.dyn[j]]>>]
     IN  DictV(Walk(1) \o dynp)
+
+\* support.asdict(config, virtual): values as they are (typed containers as plain list/dict,
+\* nested configurations as maps), plus the computed fields of each level when asked
+RECURSIVE AsDict(_, _, _)
+AsDict(Sx, c, virtual) ==
+    LET plain(f, v) ==
+            IF IsCfg(v) THEN AsDict(f, v, virtual)
+            ELSE IF v.t = "list" /\ f.kind = "list" /\ IsSchema(f.item)
+                 THEN ListV([i \in DOMAIN v.l |-> IF IsCfg(v.l[i]) THEN AsDict(f.item, v.l[i], virtual) ELSE v.l[i]])
+            ELSE v
+        stored == {i \in DOMAIN Sx.fields : Sx.fields[i][2].kind # "virtual" /\ Sx.fields[i][1] \in DOMAIN c.vals}
+        virt == {i \in DOMAIN Sx.fields : Sx.fields[i][2].kind = "virtual" /\ VKind(Sx.fields[i][2]) # "method"}
+    IN  [k \in {Sx.fields[i][1] : i \in stored} \cup (IF virtual THEN {Sx.fields[i][1] : i \in virt} ELSE {}) \cup Range(c.dyn) |->
+            IF k \in Range(c.dyn) /\ ~HasField(Sx, k) THEN c.vals[k]
+            ELSE LET f == FieldOf(Sx, k) IN
+                 IF f.kind = "virtual" THEN VirtualOf(f, c) ELSE plain(f, c.vals[k])]
 
 ---------------------------------------------------------------------------
 (* C01: every value a configuration holds satisfies its field's constraints *)
